@@ -118,6 +118,107 @@ type conn struct {
 	class string
 }
 
+// runLong: two connections for the same endpoint over one multiplexed tunnel; A stays idle (a read is
+// outstanding for it) while B receives `calls` single-byte writes, each a call of its own on the shared
+// transport; then the application writes on A: those bytes must reach A's client and nobody else.
+func runLong(op string, rep *hx.Report) string {
+	ws := strings.Fields(op)
+	calls := 0
+	for _, w := range ws {
+		if strings.HasPrefix(w, "calls=") {
+			calls, _ = strconv.Atoi(w[6:])
+		}
+	}
+	rig, err := snix.NewRig("legacy", nil, nil)
+	if err != nil {
+		return "skip " + err.Error()
+	}
+	defer rig.Close()
+	ep, err := rig.Endpoint("a")
+	if err != nil {
+		return "skip " + err.Error()
+	}
+	hello := helloFor("a.test")
+	type side struct {
+		c   net.Conn
+		tag byte
+	}
+	apps := make(chan side, 4)
+	go func() {
+		for {
+			c, err := ep.Accept()
+			if err != nil {
+				return
+			}
+			go func() {
+				c.SetDeadline(time.Now().Add(90 * time.Second))
+				hb := make([]byte, len(hello)+1)
+				if _, err := io.ReadFull(c, hb); err != nil {
+					c.Close()
+					return
+				}
+				apps <- side{c, hb[len(hello)]}
+			}()
+		}
+	}()
+	open := func(tag byte) (net.Conn, net.Conn) {
+		cl, err := net.Dial("tcp", rig.Lis.Addr().String())
+		if err != nil {
+			return nil, nil
+		}
+		cl.SetDeadline(time.Now().Add(90 * time.Second))
+		cl.Write(hello)
+		cl.Write([]byte{tag})
+		select {
+		case a := <-apps:
+			if a.tag != tag {
+				rep.Fail("foreign-bytes:legacy", "the byte after the ClientHello is another connection's", []string{op})
+			}
+			return cl, a.c
+		case <-time.After(15 * time.Second):
+			return cl, nil
+		}
+	}
+	clA, appA := open('A')
+	clB, appB := open('B')
+	for _, c := range []net.Conn{clA, appA, clB, appB} {
+		if c == nil {
+			return "skip connection not established"
+		}
+		defer c.Close()
+	}
+	go func() {
+		for i := 0; i < calls; i++ {
+			if _, err := appB.Write([]byte{'b'}); err != nil {
+				return
+			}
+		}
+	}()
+	got := make([]byte, calls)
+	if n, err := io.ReadFull(clB, got); err != nil {
+		rep.Fail("foreign-bytes:legacy", fmt.Sprintf("connection B received %d of %d bytes written for it one at a time: %v", n, calls, err), []string{op})
+		return "failed"
+	}
+	if k := bytes.IndexFunc(got, func(r rune) bool { return r != 'b' }); k >= 0 {
+		rep.Fail("foreign-bytes:legacy", fmt.Sprintf("connection B received a byte that was not written for it at offset %d", k), []string{op})
+		return "failed"
+	}
+	msgA := []byte("bytes-of-connection-A")
+	appA.Write(msgA)
+	appB.Write([]byte("bytes-of-connection-B"))
+	bufA := make([]byte, len(msgA))
+	if _, err := io.ReadFull(clA, bufA); err != nil || !bytes.Equal(bufA, msgA) {
+		rep.Fail("foreign-bytes:legacy", fmt.Sprintf("after %d calls on the shared tunnel, connection A's client read %q (%v); its application wrote %q", calls, bufA, err, msgA), []string{op})
+		return "failed"
+	}
+	bufB := make([]byte, len(msgA))
+	if _, err := io.ReadFull(clB, bufB); err != nil || string(bufB) != "bytes-of-connection-B" {
+		rep.Fail("foreign-bytes:legacy", fmt.Sprintf("after %d calls on the shared tunnel, connection B's client read %q (%v)", calls, bufB, err), []string{op})
+		return "failed"
+	}
+	return "ok"
+}
+
 // scenario op: "e2e mode=<m> seed=<s> conns=<n>"
 func runE2E(op string, rep *hx.Report) (lines, impl []string, skipped string) {
 	ws := strings.Fields(op)
@@ -310,6 +411,9 @@ func runE2E(op string, rep *hx.Report) (lines, impl []string, skipped string) {
 			}
 		case results[i] == "timeout":
 			got = "timeout"
+			if d, err := lookup(c.sni); specRejected(c.sni) || err != nil || (!d.Home && d.ForwardTCP == "" && reg == "none") {
+				rep.Fail("rejected-connection-left-open:"+mode, fmt.Sprintf("connection %d (sni %q) must be refused; 20 s later the proxy has still not closed it", c.tag, c.sni), []string{op})
+			}
 		}
 		impl = append(impl, got)
 	}
@@ -436,6 +540,7 @@ func main() {
 			}
 			ops = append(ops, fmt.Sprintf("e2e mode=%s seed=%d conns=%d", []string{"legacy", "siding", "siding-addr"}[i%3], r.U64()%100000, n))
 		}
+		ops = append(ops, "long calls=70000")
 		nf := 2
 		if f.Thorough() {
 			nf = 12
@@ -483,6 +588,10 @@ func main() {
 	failedMode := map[string]bool{} // once a mode has shown a violation do not spend more time-outs on it
 	for _, op := range ops {
 		switch {
+		case strings.HasPrefix(op, "long "):
+			rep.Case(op, true)
+			rep.Count("long")
+			runLong(op, rep)
 		case strings.HasPrefix(op, "e2e "):
 			md := strings.Fields(op)[1]
 			if failedMode[md] {
